@@ -43,6 +43,9 @@ TIME_STRINGS = [
     "20250101", "2025-W01-1", "2025-1-1", "not a date", "", "2025", "abcdefgh", " 2025-01-01", "2025-01-01 ",
     "2025-01-01T00:00:00+01", "2025-01-01T00:00:00+0100", "2025-01-01X00:00:00", "2025-04-31", "2025-04-30",
     "1900-02-29", "2000-02-29", "2100-02-29T00:00:00Z",
+    # text that digit/number predicates treat differently from plain ASCII digits
+    "1735689600", "1735689600.5", "\u00b2", "\u2460\u2461", "1\u00b3", "\u0661\u0662\u0663", "\uff11\uff12", "1_000", " 12 ",
+    "+5", "1e5", "nan", "inf", "Infinity", "9" * 5000, "\u00a0", "-0",
 ]
 EPOCHS = [
     0, 1, -1, 1735689600, 1735689600.0, 1735689600.5, 1735689599.9999995, 1735689600.0000005,
